@@ -17,7 +17,7 @@ from variant_list import VARIANTS  # noqa: E402
 
 
 def run(cmd, cwd=None):
-    return subprocess.run(cmd, cwd=cwd, env=ENV, stdout=subprocess.PIPE, stderr=subprocess.STDOUT, text=True)
+    return subprocess.run(cmd, cwd=cwd, env=ENV, stdout=subprocess.PIPE, stderr=subprocess.STDOUT, text=True, errors="replace")
 
 
 def props_claimed():
